@@ -324,7 +324,78 @@ var scalarTypes = []reflect.Type{
 	reflect.TypeOf(int(0)), reflect.TypeOf(uint(0)),
 }
 
+// genLayoutType composes a type from the building blocks the shipped layouts use (optional/required
+// parameter, a parameter group, a run of fixed-width inline fields glued to a required field, required
+// positional fields, a trailing optional field), so that well-formed combinations of the tag options
+// are frequent rather than accidental.
+func (c *Ctx) genLayoutType() reflect.Type {
+	var fs []reflect.StructField
+	k := 0
+	add := func(t reflect.Type, opts ...string) {
+		c.Rng.Shuffle(len(opts), func(i, j int) { opts[i], opts[j] = opts[j], opts[i] })
+		fs = append(fs, reflect.StructField{Name: fmt.Sprintf("F%d", k), Type: t, Tag: reflect.StructTag(`hash:"` + strings.Join(opts, ",") + `"`)})
+		k++
+	}
+	uints := []reflect.Type{reflect.TypeOf(uint8(0)), reflect.TypeOf(uint16(0)), reflect.TypeOf(uint32(0)), reflect.TypeOf(uint64(0)), reflect.TypeOf(int32(0))}
+	texts := []reflect.Type{reflect.TypeOf(""), reflect.TypeOf([]byte(nil))}
+	omit := func(p int, opts []string) []string {
+		if c.Rng.Intn(p) == 0 {
+			return append(opts, "omitempty")
+		}
+		return opts
+	}
+	pt := reflect.TypeOf("")
+	if c.Rng.Intn(3) == 0 {
+		pt = tWlPrefix
+	}
+	fs = append(fs, reflect.StructField{Name: "HashPrefix", Type: pt})
+	names := []string{"v", "m", "t", "p", "r", "x"}
+	c.Rng.Shuffle(len(names), func(i, j int) { names[i], names[j] = names[j], names[i] })
+	if c.Rng.Intn(2) == 0 {
+		add(uints[c.Rng.Intn(len(uints))], omit(2, []string{"param:" + names[0]})...)
+	}
+	if c.Rng.Intn(3) == 0 {
+		for g := 0; g < 2+c.Rng.Intn(2); g++ {
+			add(uints[c.Rng.Intn(len(uints))], omit(6, []string{"param:" + names[1+g], "group"})...)
+		}
+	}
+	if c.Rng.Intn(3) == 0 {
+		add(texts[c.Rng.Intn(2)], omit(2, []string{"param:" + names[5]})...)
+	}
+	if c.Rng.Intn(2) == 0 {
+		for g := 0; g < 1+c.Rng.Intn(2); g++ {
+			if c.Rng.Intn(3) == 0 {
+				add(tDesRounds, "length:4", "inline")
+			} else {
+				add(texts[c.Rng.Intn(2)], fmt.Sprintf("length:%d", 1+c.Rng.Intn(4)), "inline")
+			}
+		}
+		if c.Rng.Intn(2) == 0 {
+			add(texts[c.Rng.Intn(2)], fmt.Sprintf("length:%d", 1+c.Rng.Intn(4)))
+		} else {
+			add(texts[c.Rng.Intn(2)])
+		}
+	}
+	for g := 0; g < c.Rng.Intn(3); g++ {
+		if c.Rng.Intn(3) == 0 {
+			add(reflect.ArrayOf(1+c.Rng.Intn(5), reflect.TypeOf(byte(0))))
+		} else {
+			add(texts[c.Rng.Intn(2)])
+		}
+	}
+	if c.Rng.Intn(3) == 0 {
+		add(texts[c.Rng.Intn(2)], "omitempty")
+	}
+	if k == 0 {
+		add(texts[0])
+	}
+	return reflect.StructOf(fs)
+}
+
 func (c *Ctx) genType(withPrefix bool) reflect.Type {
+	if withPrefix && c.Rng.Intn(3) == 0 {
+		return c.genLayoutType()
+	}
 	n := 1 + c.Rng.Intn(5)
 	if c.Rng.Intn(8) == 0 {
 		n = 1 + c.Rng.Intn(8)
